@@ -390,13 +390,18 @@ func ValidateCondition(column *ColumnSchema, function ConditionFunction, nativeV
 			NativeType(column).String(), nativeValue)
 	}
 
-	switch column.Type {
+	columnType := column.Type
+	if columnType == TypeEnum {
+		// an enum is a scalar of its key type
+		columnType = column.TypeObj.Key.Type
+	}
+	switch columnType {
 	case TypeSet, TypeMap, TypeBoolean, TypeString, TypeUUID:
 		switch function {
 		case ConditionEqual, ConditionNotEqual, ConditionIncludes, ConditionExcludes:
 			return nil
 		default:
-			return fmt.Errorf("wrong condition function %s for type: %s", function, column.Type)
+			return fmt.Errorf("wrong condition function %s for type: %s", function, columnType)
 		}
 	case TypeInteger, TypeReal:
 		// All functions are valid
